@@ -25,6 +25,20 @@ structure MolAtom (x : Atom) : Prop where
 def Graph.MolAtoms (g : Graph) : Prop := ∀ a ∈ g.labels, ∀ x, g.attrs? a = some x → MolAtom x
 
 namespace RoundTrip
+/-!
+Structure of the proof.
+* association lists; the three listener loops evaluated on explicit syntax trees (`formula_eval`,
+  `tuples_eval`, `attrs_eval`);
+* §1 `symOfZ` / `elementZ` are inverse on the table; the Hill items list every symbol with its
+  multiplicity (`hill_perm`);
+* §4 `to_graph` restated with explicit loop bodies (`toGraph_eq`), the bound check (`check_eval`), the
+  attribute join (`join_eval`, `join_fold`), the bond dictionary (`bondsDict_fold`);
+* §2' `SortedMol m n`: what is needed of the sorted molecule (labels `0 … n-1`, chemistry-level atoms,
+  atomic numbers ascending along the labels); under it the listener results, the sorted atom list
+  (`sorted_atoms`), the atom dictionary (`dict_eval`), `parse_run` and `parse_back`;
+* §2 `sorted_facts`: `sort_molecule_by_attribute(·, ATOMIC_NUMBER)` produces such a molecule;
+* §5 assembly.
+-/
 
 /-! ## association lists -/
 section Assoc
@@ -300,11 +314,11 @@ theorem blockStep_eval (id : Nat) (a : Atom) (acc : List (Int × Atom))
       rw [propStep_mass id acc v hid (hm v hmass), alookup_none hfresh]
       simp only [Option.getD_none]
       rw [setAttr_mass v {} rfl]
-      show (propStep _ (ainsert _ _ _) _ >>= _) = _
+      simp only [Except.bind, bind]
       rw [ainsert_not_mem hfresh, propStep_rad id _ r hid (hr r hrad), alookup_append_single hfresh]
       simp only [Option.getD_some]
       rw [setAttr_rad r _ rfl]
-      show (Except.ok (ainsert _ _ _) >>= _) = _
+      simp only [Except.bind]
       rw [ainsert_append_self hfresh]
       rfl
 
